@@ -25,8 +25,11 @@ CLAIM = dict(cat="proof", design="§3 C10 (shares §3 C04 machinery)",
         "the declared sets, and accumulating operations satisfy result == fl(previous +/- contribution) bit for bit. Oracle on the real code: 6 layouts x 3 task orders agree to <= 1e-12 of the field scale "
         "with the undivided sequential sweep after several steps, repeated sequential runs are bit-identical, two faces sharing a cell commute.",
    note="Trusted: Coq kernel + standard real-number axioms incl. functional extensionality (states are functions); extraction + OCaml driver for the correspondences. "
-        "NOT proved here (C07): (a) phases_ordered -- that the task graph lets the operations touching a cell run only in phase order (dependency table of make_hydro_tasks/set_dependencies + locks), "
-        "so that every multi-threaded run is SOME phase-wise order of tasks; (b) single_thread_deterministic -- one thread has exactly one schedule. With (a), C10_schedule_independent gives thread-count "
+        "Premise (a) phases_ordered is proved in C07, not here: C07_phases_ordered (for every layout and periodicity, any two tasks of the hydro task table that touch the same subgrid and lie in consecutive "
+        "phases gradient sweeps -> slope limiter -> primitive prediction -> flux sweeps -> conserved update -> primitive update are linked by a direct child edge, and every phase has a task on every subgrid) and "
+        "C07_phases_ordered_in_every_run (hence, for every thread count and schedule, a task touching a subgrid starts only after all earlier-phase tasks touching it have stopped); it is tied to the code on every run "
+        "of ./check C07 by the extracted phases_ordered_check evaluated on the real dumped task tables and by a phase oracle on the real worker-loop runs. So every multi-threaded run is SOME phase-wise order of tasks. "
+        "NOT proved: (b) single_thread_deterministic -- one thread has exactly one schedule. With (a), C10_schedule_independent gives thread-count "
         "independence over the reals; 'up to floating-point summation round-off' is measured (max 1e-12 of the field scale required, ~1e-15 observed), not bounded by proof. Bit-for-bit reproducibility with one "
         "thread is evidenced by bit-identical repetition of the sequential executor and by whole-step bit-exactness of the functional model, not proved for the task-based driver. "
         "Thread counts are emulated at task granularity (pseudo-random order of whole sweeps inside a phase), not by running the OpenMP driver. The time-step computation (get_timestep, CFL, TimeLine) is outside the model: dt is an input.",
